@@ -63,6 +63,33 @@ def frame (call : String) (n n' : Net) : Bool :=
   | "removeCanaryService" => n'.stableSel = n.stableSel && n'.canaryIng = n.canaryIng && n'.stableExists = n.stableExists
   | _ => n'.stableExists = n.stableExists && n'.stableIngress = n.stableIngress
 
+/-- the Manager calls with *retry* semantics (`done = true` means "call me again") -/
+def retryCall (call : String) : Bool :=
+  call == "patchStableService" || call == "restoreStableService" || call == "restoreGateway" ||
+  call == "removeCanaryService" || call == "routeAllToNew"
+
+/-- whether the call asks to be re-run after a positive duration (`c.RecheckDuration > 0`), as a function of
+    its result: the retry-style calls exactly when they say "retry"; `FinalisingTrafficRouting` exactly when one of
+    its parts did; `DoTrafficRouting` never (its caller requeues with the default period) -/
+def recheckOf (call : String) (c : TCtx) (o : TOut) : Bool :=
+  if retryCall call then o.done && !o.err
+  else if call == "finalisingTrafficRouting" then c.hasRef && !o.done && !o.err
+  else false
+
+/-- **C07** — a retry is a wake-up that comes: a call that says "retry" (without an error, which the rate limiter
+    retries) was configured with a grace period to wait for (`gracePeriodSeconds: 0` means *no waiting*: never a retry)
+    and asked for a positive recheck duration. -/
+def retryHasWakeup (call : String) (c : TCtx) (o : TOut) (recheck : Bool) : Bool :=
+  if retryCall call ∧ o.done ∧ ¬ o.err then decide (c.grace > 0) && recheck
+  else if call = "finalisingTrafficRouting" ∧ c.hasRef ∧ ¬ o.done ∧ ¬ o.err then decide (c.grace > 0) && recheck
+  else true
+
+/-- **C03.iv** — `PatchStableService` (traffic routing configured, canary Service generated) that returns without an error
+    has left the stable Service existing and pinned to the stable revision: the caller reads "no error, no retry" as
+    "pinned" and goes on to create the step's pods (theorem `RV.Props.CanaryStyle.ps_spec`). -/
+def patchMeansPinned (c : TCtx) (o : TOut) : Bool :=
+  !(c.hasRef && !c.disableGen && !o.err) || (o.net.stableExists && o.net.stableSel.getD "" == c.stableRev)
+
 def callOracles (call : String) (c : TCtx) (n : Net) (_m : Mem) (o : TOut) : List (String × Bool) :=
   [("C05.frame", frame call n o.net)] ++
   (if call = "doTrafficRouting" then
@@ -70,6 +97,7 @@ def callOracles (call : String) (c : TCtx) (n : Net) (_m : Mem) (o : TOut) : Lis
      ("C04.services_before_routes", servicesBeforeRoutes c n o.net),
      ("C03.services_before_routes", servicesBeforeRoutes c n o.net)]
    else []) ++
+  (if call = "patchStableService" then [("C03.patch_means_pinned", patchMeansPinned c o)] else []) ++
   (if call = "finalisingTrafficRouting" then
     [("C04.finalising_order", finalisingOrder c n o),
      ("C10.finalising_order", finalisingOrder c n o),
